@@ -81,13 +81,14 @@ def job_generic(job, seed):
     def fake_tt(*, incident_beam, scattered_beam):
         rec['b1'] = incident_beam.copy()
         rec['b2'] = scattered_beam.copy()
+        C.CTX.notes.append('two_theta called')
         return sc.scalar(C.sym_var('ANGLE'), unit='rad', dtype='float64')
 
     bl.two_theta = fake_tt
     try:
         V.WRITE_LOG.clear()
         C.CTX.fork_timeout_ms = 4000
-        paths = C.explore(lambda: (bl.scattering_angles_with_gravity(incident_beam=b1, scattered_beam=b2, wavelength=lam, gravity=g), dict(rec)))
+        paths = C.explore(lambda: (rec.clear(), bl.scattering_angles_with_gravity(incident_beam=b1, scattered_beam=b2, wavelength=lam, gravity=g), dict(rec))[1:])
     finally:
         bl.two_theta = real_tt
 
@@ -100,8 +101,18 @@ def job_generic(job, seed):
 
     argbufs = {v._buf.id for v in (b1, b2, g, lam)}
     n_generic = 0
+    def dispatch_ok(k, p):
+        # the implementation for perpendicular beams was taken (its values are checked in job_orth on b1 = g x w):
+        # that choice is only allowed when the INCIDENT beam is perpendicular to gravity within the documented tolerance
+        with C.oracle():
+            gn_ = C.rsqrt(vnorm2(vec(g)), nonneg=True)
+            d_ = vdot(vec(g), vec(b1))
+        chk(f'path{k}:perpendicular-beam implementation only when |g.b1| <= 1e-10 |g|', (d_ <= gn_ * Fraction(1e-10)) & (-d_ <= gn_ * Fraction(1e-10)), 'C04:generic:dispatch', pc=p.pc)
+
     for k, p in enumerate(paths):
         if p.inconclusive:
+            if 'two_theta called' not in p.notes and not p.maybe_infeasible:
+                dispatch_ok(k, p)
             if p.maybe_infeasible or 'non-finite' in p.inconclusive:
                 continue  # spurious path from an undecided feasibility query
             obs.append({'name': f'generic[{dt_lam}]:path{k}', 'status': 'inconclusive', 'detail': p.inconclusive, 't': 0})
@@ -115,7 +126,8 @@ def job_generic(job, seed):
             continue
         res, r = p.value
         if 'b2' not in r:
-            continue  # orthogonal implementation taken on this path (checked in job_orth)
+            dispatch_ok(k, p)
+            continue
         n_generic += 1
         # (iii) the beam handed to two_theta is the raised beam b2' = b2 + delta*ey, and b1 is passed unchanged
         sB = C.R(r['b2'].unit.scale_rat())
@@ -437,6 +449,10 @@ def replay_real(case):
         if kind in ('orth', 'refl') and trial % 2 == 0:
             b1 = np.array([0.0, 0.0, rng.uniform(1, 50)])
         b2 = rng.normal(size=3) * rng.uniform(0.5, 10)
+        if kind == 'generic' and trial % 4 == 1:
+            # detector at beam height: scattered beam perpendicular to gravity
+            b2 = np.cross(g, rng.normal(size=3))
+            b2 = b2 / np.linalg.norm(b2) * rng.uniform(0.5, 10)
         lam = rng.uniform(0.0, 100.0)
         lamv = sc.scalar(lam, unit='angstrom').astype(dt)
         lam_m = mp.mpf(float(lamv.value)) * mp.mpf('1e-10')
